@@ -1,13 +1,13 @@
 package props
 
 import (
-	"go/token"
-	"path/filepath"
-	"os"
 	"fmt"
-	"regexp"
 	"go/ast"
+	"go/token"
 	"go/types"
+	"os"
+	"path/filepath"
+	"regexp"
 	"strings"
 
 	"occheck/internal/engine"
@@ -47,6 +47,63 @@ func runC15(c *engine.Ctx, tier string) {
 		if rel != pkgStorePropV2 {
 			drainOnExit(c, "C15.11/"+short, rel, 2)
 		}
+		dispatcherLives(c, "C15.13/"+short, rel, 1)
+		if rel != pkgStorePropV2 {
+			publishedChannelClosed(c, "C15.14/"+short, rel, 1)
+		}
+	}
+}
+
+// dispatcherLives: the loop that reads the primitive's live event stream and hands the events to the
+// watchers is left only when the stream ends. It is the one source of live events of the store on this
+// node: a dispatcher that returns on a per-event error leaves every current and future watcher (the Set
+// and rollback handlers among them) without events for ever.
+func dispatcherLives(c *engine.Ctx, id, rel string, min int) {
+	o := c.Custom(id, "K-exit(dispatcher)", "a path that calls EventStream.Next() on the primitive's event stream and then leaves the function/goroutine (rather than looping back) has tested that call's error == io.EOF",
+		"every watcher of the store, present and future, is fed by this loop; an error on one event is logged and skipped")
+	defer o.Done(min)
+	paths, err := storePaths(c, rel)
+	if err != nil {
+		o.Undecided(rel, err.Error())
+		return
+	}
+	reported := map[string]bool{}
+	for _, p := range paths {
+		if len(p.Events) == 0 {
+			continue
+		}
+		var next *engine.Event
+		for i := range p.Events {
+			if e := &p.Events[i]; e.Kind == engine.EvCall && strings.HasSuffix(e.CalleeName, "stream.EventStream.Next") {
+				next = e
+			}
+		}
+		if next == nil {
+			continue
+		}
+		o.Site(p.Root.Name())
+		o.Eval(1)
+		last := &p.Events[len(p.Events)-1]
+		if last.Kind != engine.EvReturn {
+			continue // loops back
+		}
+		eof := false
+		for i := range p.Events {
+			if e := &p.Events[i]; e.Kind == engine.EvCond && e.Lit.L == "err("+next.Canon+")" && e.Lit.R == "io.EOF" && e.Lit.Mask == 2 {
+				eof = true
+			}
+		}
+		if !eof {
+			key := p.Root.Name() + "|dispatcher leaves on an error other than the end of the stream"
+			if i := strings.Index(key, "$lit@"); i >= 0 {
+				key = key[:i] + "$lit" + key[strings.Index(key, "|"):]
+			}
+			if !reported[key] {
+				reported[key] = true
+				o.Fail(&engine.Violation{Key: key, Pos: c.P.Pos(last.Pos), Func: p.Root.Name(),
+					Msg: "the event dispatcher returns on a path where EventStream.Next() did not report io.EOF: after one undecodable event no watcher of this store receives anything again", Path: c.PathTrace(p, len(p.Events)-1)})
+			}
+		}
 	}
 }
 
@@ -60,12 +117,15 @@ func inStorePkg(rel string) bool {
 }
 
 // conditionalUpdates: C15.1.
-func conditionalUpdates(c *engine.Ctx) {
-	o := c.Custom("C15.1", "K-args(IfVersion)", "every Update/Remove on an Atomix primitive or map transaction carries IfVersion of the version read for the very record/entry written; creation uses Insert/Append",
+func conditionalUpdates(c *engine.Ctx) { conditionalUpdatesAs(c, "C15.1", "", 12) }
+
+// conditionalUpdatesAs restricts the rule to the store package onlyPkg (all store packages when empty).
+func conditionalUpdatesAs(c *engine.Ctx, id, onlyPkg string, min int) {
+	o := c.Custom(id, "K-args(IfVersion)", "every Update/Remove on an Atomix primitive or map transaction carries IfVersion of the version read for the very record/entry written; creation uses Insert/Append",
 		"two writers that both read the same version of a record cannot both succeed")
-	defer o.Done(12)
+	defer o.Done(min)
 	for _, cs := range c.P.CallSites() {
-		if !inStorePkg(cs.Pkg) {
+		if !inStorePkg(cs.Pkg) || (onlyPkg != "" && cs.Pkg != onlyPkg) {
 			continue
 		}
 		isPrim := strings.HasPrefix(cs.Callee, "indexedmap.IndexedMap.") || strings.HasPrefix(cs.Callee, "map.Map.") || strings.HasPrefix(cs.Callee, "map.Transaction.")
@@ -305,6 +365,71 @@ func channelTypestate(c *engine.Ctx, id, rel string) {
 			o.Site("")
 			o.Eval(1)
 		}
+	}
+}
+
+// publishedChannelClosed: a channel that a function publishes into a map of channels (the watcher
+// registry the dispatcher sends from) is sent on by another goroutine; closing it from the publishing
+// side races with that send. The dispatcher copies the list under the lock and sends outside it, so
+// "unregister first, then close" does not help: send on closed channel panics the process.
+func publishedChannelClosed(c *engine.Ctx, id, rel string, min int) {
+	o := c.Custom(id, "K-chan(ownership)", "a channel variable that is stored as an element of a map of channels (m[k] = ch) is never the argument of close() in the same function or its function literals",
+		"the registry's reader (the store's dispatcher) sends on it from another goroutine, possibly from a list copied before the entry was removed")
+	defer o.Done(min)
+	pkg := c.P.Pkg(rel)
+	if pkg == nil {
+		o.Undecided(rel, "package not found")
+		return
+	}
+	info := pkg.TypesInfo
+	for _, fi := range c.P.FuncsOf(pkg) {
+		if fi.Decl == nil || fi.Decl.Body == nil {
+			continue
+		}
+		published := map[types.Object]token.Pos{}
+		ast.Inspect(fi.Decl.Body, func(n ast.Node) bool {
+			as, ok := n.(*ast.AssignStmt)
+			if !ok || len(as.Lhs) != len(as.Rhs) {
+				return true
+			}
+			for i, l := range as.Lhs {
+				ix, ok := l.(*ast.IndexExpr)
+				if !ok {
+					continue
+				}
+				m, ok := info.TypeOf(ix.X).Underlying().(*types.Map)
+				if !ok {
+					continue
+				}
+				if _, isCh := m.Elem().Underlying().(*types.Chan); !isCh {
+					continue
+				}
+				if idn, ok := ast.Unparen(as.Rhs[i]).(*ast.Ident); ok {
+					if obj := info.Uses[idn]; obj != nil {
+						published[obj] = as.Pos()
+					}
+				}
+			}
+			return true
+		})
+		if len(published) == 0 {
+			continue
+		}
+		o.Site(fi.Name())
+		ast.Inspect(fi.Decl.Body, func(n ast.Node) bool {
+			call, ok := n.(*ast.CallExpr)
+			if !ok || !isBuiltin(info, call, "close") || len(call.Args) != 1 {
+				return true
+			}
+			o.Eval(1)
+			if idn, ok := ast.Unparen(call.Args[0]).(*ast.Ident); ok {
+				if pos, ok := published[info.Uses[idn]]; ok {
+					o.Fail(&engine.Violation{Key: fi.Name() + "|close of published channel " + idn.Name, Pos: c.P.Pos(call.Pos()), Func: fi.Name(),
+						Msg: "close(" + idn.Name + ") although " + idn.Name + " was put into a registry of channels at " + c.P.Pos(pos) + ": the dispatcher may still send on it (it sends from a copied list, outside the lock) and a send on a closed channel panics the process"})
+				}
+			}
+			return true
+		})
 	}
 }
 
@@ -728,7 +853,7 @@ func eventMapping(c *engine.Ctx, id, rel string) {
 // loopVarAddress: C15.10 — under the module's Go version (go.mod < 1.22: one variable per loop) the
 // address of a range/for variable must not outlive its iteration.
 func loopVarAddress(c *engine.Ctx) {
-	o := c.Custom("C15.10", "alias(loop variable)", "with go.mod declaring a Go version below 1.22, &v of a range/for variable v is not taken inside the loop other than in a return statement (a per-iteration copy `v := v` makes it a different variable)",
+	o := c.Custom("C15.10", "alias(loop variable)", "with go.mod declaring a Go version below 1.22, the address of a range/for variable v (&v, or &v.f / &v[i] through value fields and arrays) is not taken inside the loop other than in a return statement (a per-iteration copy `v := v` makes it a different variable)",
 		"a primitive transaction that keeps the pointer until Commit, a slice of pointers, a goroutine: all see the last iteration's value")
 	defer o.Done(0)
 	gomod, err := os.ReadFile(filepath.Join(c.P.RepoDir, "go.mod"))
@@ -786,17 +911,62 @@ func loopVarAddress(c *engine.Ctx) {
 					return true
 				}
 				// &v where v is one of the loop's variables (not shadowed by v := v, which defines a new object)
+				var stack []ast.Node
 				ast.Inspect(body, func(m ast.Node) bool {
+					if m == nil {
+						stack = stack[:len(stack)-1]
+						return true
+					}
+					stack = append(stack, m)
 					if _, isRet := m.(*ast.ReturnStmt); isRet {
+						stack = stack[:len(stack)-1]
 						return false // returning &v leaves the loop: no later iteration overwrites it
 					}
 					u, ok := m.(*ast.UnaryExpr)
 					if !ok || u.Op != token.AND {
 						return true
 					}
-					id, ok := ast.Unparen(u.X).(*ast.Ident)
+					// &v, and &v.f / &v[i] through value fields and arrays: storage of the loop variable itself
+					x := ast.Unparen(u.X)
+					for {
+						switch y := x.(type) {
+						case *ast.SelectorExpr:
+							if sel := info.Selections[y]; sel != nil && sel.Kind() == types.FieldVal && !sel.Indirect() {
+								if _, isPtr := info.TypeOf(y.X).Underlying().(*types.Pointer); !isPtr {
+									x = ast.Unparen(y.X)
+									continue
+								}
+							}
+						case *ast.IndexExpr:
+							if _, isArr := info.TypeOf(y.X).Underlying().(*types.Array); isArr {
+								x = ast.Unparen(y.X)
+								continue
+							}
+						}
+						break
+					}
+					id, ok := x.(*ast.Ident)
 					if !ok || !vars[info.Uses[id]] {
 						return true
+					}
+					if x != ast.Unparen(u.X) {
+						// the address of a part of the variable: reported where it is kept (assigned, put into a
+						// literal, appended, sent); as a plain call argument it is normally used at once
+						kept := false
+						for i := len(stack) - 2; i >= 0 && !kept; i-- {
+							switch par := stack[i].(type) {
+							case *ast.ParenExpr:
+								continue
+							case *ast.AssignStmt, *ast.KeyValueExpr, *ast.CompositeLit, *ast.SendStmt:
+								kept = true
+							case *ast.CallExpr:
+								kept = isBuiltin(info, par, "append")
+							}
+							break
+						}
+						if !kept {
+							return true
+						}
 					}
 					o.Eval(1)
 					o.Fail(&engine.Violation{Key: fi.Name() + "|&" + id.Name + " of a loop variable escapes its iteration", Pos: c.P.Pos(u.Pos()), Func: fi.Name(),
